@@ -74,7 +74,7 @@ theorem kidsFit_krename {eqn} {g : TGeom} {ks : List TNode} {o n : Spec.Name} (h
 
 theorem alloc_res_len {k : Kind} {max bpc lim fuel : Nat} {m : CMap} {size prev : Nat} {l' : List Nat}
     (h : (allocateSpace k max bpc (firstFit lim) fuel m size prev).res = some l') :
-    clusterCount bpc size ≤ l'.length ∧ (prev = 0 → l'.length = clusterCount bpc size) := by
+    clusterCount bpc size ≤ l'.length := by
   unfold clusterCount
   revert h
   unfold allocateSpace
@@ -91,39 +91,55 @@ theorem alloc_res_len {k : Kind} {max bpc lim fuel : Nat} {m : CMap} {size prev 
         intro h
         simp only [Option.some.injEq] at h
         subst h
-        exact ⟨by omega, fun _ => hc.symm⟩
+        omega
       · split
-        · rename_i hne hgt
-          split
+        · split
           · intro h; cases h
           · rename_i hlen
             intro h
             simp only [Option.some.injEq] at h
             subst h
-            have hle := (firstFit_spec lim).len_le m (count - clusters.length)
             rw [List.length_append]
-            refine ⟨by omega, fun hp => ?_⟩
-            have hcl : clusters = [] := by
-              rw [hp] at hwr
-              simp only [ge_iff_le, Nat.not_succ_le_zero, if_false] at hwr
-              cases hwr; rfl
-            rw [hcl] at hle ⊢
-            simp only [List.length_nil] at hle ⊢
             omega
-        · rename_i hne hngt
-          split
+        · split
           · intro h; cases h
           · intro h
             simp only [Option.some.injEq] at h
             subst h
-            refine ⟨by omega, fun hp => ?_⟩
-            have hcl : clusters = [] := by
-              rw [hp] at hwr
-              simp only [ge_iff_le, Nat.not_succ_le_zero, if_false] at hwr
-              cases hwr; rfl
-            rw [hcl] at hne hngt
-            simp only [List.length_nil] at hne hngt
             omega
+
+/-- a new chain (`previous = 0`) has exactly the clusters asked for -/
+theorem alloc_new_len {k : Kind} {max bpc lim fuel : Nat} {m : CMap} {size : Nat} {l' : List Nat}
+    (h : (allocateSpace k max bpc (firstFit lim) fuel m size 0).res = some l') :
+    l'.length = clusterCount bpc size := by
+  have hge := alloc_res_len h
+  unfold clusterCount at hge ⊢
+  revert h
+  unfold allocateSpace
+  generalize size / bpc + (if size % bpc > 0 then 1 else 0) = count at hge ⊢
+  simp only [Nat.not_lt_zero, if_false, ge_iff_le, Nat.reduceLeDiff, List.length_nil, Nat.sub_zero,
+    List.nil_append]
+  split
+  · rename_i hc
+    intro h
+    simp only [Option.some.injEq] at h
+    subst h
+    simpa using hc.symm
+  · split
+    · split
+      · intro h; cases h
+      · intro h
+        simp only [Option.some.injEq] at h
+        subst h
+        have hle := (firstFit_spec lim).len_le m count
+        omega
+    · split
+      · intro h; cases h
+      · intro h
+        simp only [Option.some.injEq] at h
+        subst h
+        simp only [List.length_nil] at *
+        omega
 
 /-- after `writeDirectoryEntries` the directory fits its storage -/
 theorem writeDir_fit {g : TGeom} {fuel : Nat} {m : CMap} {d : Dev} {chain : List Nat} {base : Nat}
@@ -148,14 +164,14 @@ theorem writeDir_fit {g : TGeom} {fuel : Nat} {m : CMap} {d : Dev} {chain : List
       · rename_i heq
         simp only [Except.ok.injEq] at hw
         subst hw
-        exact ⟨⟨fun hh => by cases hh, fun _ => heq.symm⟩, by simp⟩
+        exact ⟨⟨fun hh => (by cases hh), fun _ => heq.symm⟩, by simp⟩
       · split at hw
         · cases hw
         · rename_i l' hres
           simp only [Except.ok.injEq] at hw
           subst hw
           unfold falloc at hres
-          have hlen := (alloc_res_len hres).1
+          have hlen := alloc_res_len hres
           rw [show clusterCount g.f.io.bpc (dirNeed g base ks * g.f.io.bpc) = dirNeed g base ks from
             cnt_mul _ _ hb] at hlen
           have htl : (l'.take (dirNeed g base ks)).length = dirNeed g base ks := by
@@ -168,7 +184,8 @@ theorem writeDir_fit {g : TGeom} {fuel : Nat} {m : CMap} {d : Dev} {chain : List
 
 def FitOk (g : TGeom) (f : Nat → DirSt → DirSt × TRes) : Prop :=
   ∀ (base : Nat) (s : DirSt), LevelFit g base s.chain s.kids → kidsFit g s.kids →
-    LevelFit g base (f base s).1.chain (f base s).1.kids ∧ kidsFit g (f base s).1.kids
+    LevelFit g base (f base s).1.chain (f base s).1.kids ∧ kidsFit g (f base s).1.kids ∧
+    ((f base s).1.chain = [] ↔ s.chain = [])
 
 section fit
 variable {eqn : Spec.Name → Spec.Name → Bool} {g : TGeom} {fuel : Nat}
@@ -176,7 +193,7 @@ variable {eqn : Spec.Name → Spec.Name → Bool} {g : TGeom} {fuel : Nat}
 theorem new_dir_fit (hb64 : 64 ≤ g.f.io.bpc) {m : CMap} {l : List Nat} (n : Spec.Name)
     (hres : (falloc g.f fuel m 1 0).res = some l) : (TNode.dir n l []).Fit g := by
   unfold falloc at hres
-  have hlen := (alloc_res_len hres).2 rfl
+  have hlen := alloc_new_len hres
   have hb : 0 < g.f.io.bpc := by omega
   rw [clusterCount_one hb] at hlen
   rw [fit_dir]
@@ -187,10 +204,26 @@ theorem new_dir_fit (hb64 : 64 ≤ g.f.io.bpc) {m : CMap} {l : List Nat} (n : Sp
   simp only [List.map_nil, List.sum_nil, Nat.add_zero]
   have h1 : 64 / g.f.io.bpc + (if 64 % g.f.io.bpc > 0 then 1 else 0) = 1 := by
     by_cases he : g.f.io.bpc = 64
-    · rw [he]
+    · rw [he]; decide
     · have hlt : 64 < g.f.io.bpc := by omega
       rw [Nat.div_eq_of_lt hlt, Nat.mod_eq_of_lt hlt]; simp
   exact h1.symm
+
+/-- the leaves of the case analysis of one call: the state is returned as it was, or the parent
+    directory has been rewritten (`writeDir … = .ok w`) around the new list of children -/
+macro "fit_leaf" hb:ident hb64:ident hfit:ident hkids:ident : tactic =>
+  `(tactic| first
+    | exact ⟨$hfit, $hkids, Iff.rfl⟩
+    | exact ⟨(writeDir_fit $hb (by assumption)).1, kidsFit_append $hkids (new_dir_fit $hb64 _ (by assumption)),
+        (writeDir_fit $hb (by assumption)).2⟩
+    | exact ⟨(writeDir_fit $hb (by assumption)).1, kidsFit_append $hkids (fit_file _ _ _ _),
+        (writeDir_fit $hb (by assumption)).2⟩
+    | exact ⟨(writeDir_fit $hb (by assumption)).1, kidsFit_kset $hkids (fit_file _ _ _ _),
+        (writeDir_fit $hb (by assumption)).2⟩
+    | exact ⟨(writeDir_fit $hb (by assumption)).1, kidsFit_kerase $hkids, (writeDir_fit $hb (by assumption)).2⟩
+    | exact ⟨(writeDir_fit $hb (by assumption)).1, kidsFit_krename $hkids, (writeDir_fit $hb (by assumption)).2⟩
+    | exact ⟨(writeDir_fit $hb (by assumption)).1, kidsFit_krename (kidsFit_kerase $hkids),
+        (writeDir_fit $hb (by assumption)).2⟩)
 
 theorem dstep_fit (hb64 : 64 ≤ g.f.io.bpc) (op : TOp) : FitOk g (dstep eqn g fuel op) := by
   have hb : 0 < g.f.io.bpc := by omega
@@ -198,91 +231,40 @@ theorem dstep_fit (hb64 : 64 ≤ g.f.io.bpc) (op : TOp) : FitOk g (dstep eqn g f
   cases op with
   | mkdir d n img img2 =>
     simp only [dstep]
-    unfold dMkdir
-    split
-    · exact ⟨hfit, hkids⟩
-    · exact ⟨hfit, hkids⟩
-    · split
-      · exact ⟨hfit, hkids⟩
-      · rename_i l hres
-        split
-        · exact ⟨hfit, hkids⟩
-        · rename_i w hw
-          exact ⟨(writeDir_fit hb hw).1, kidsFit_append hkids (new_dir_fit hb64 n hres)⟩
+    generalize hr : dMkdir eqn g fuel n img img2 base s = r
+    unfold dMkdir at hr
+    dsimp only at hr
+    (repeat' split at hr) <;> subst hr <;> fit_leaf hb hb64 hfit hkids
   | create d n img =>
     simp only [dstep]
-    unfold dCreate
-    split
-    · exact ⟨hfit, hkids⟩
-    · split
-      · exact ⟨hfit, hkids⟩
-      · split
-        · exact ⟨hfit, hkids⟩
-        · rename_i w hw
-          exact ⟨(writeDir_fit hb hw).1, kidsFit_append hkids (fit_file _ _ _ _)⟩
+    generalize hr : dCreate eqn g fuel n img base s = r
+    unfold dCreate at hr
+    dsimp only at hr
+    (repeat' split at hr) <;> subst hr <;> fit_leaf hb hb64 hfit hkids
   | writeAt d n off data img =>
     simp only [dstep]
-    unfold dWrite
-    split
-    · exact ⟨hfit, hkids⟩
-    · exact ⟨hfit, hkids⟩
-    · split
-      · exact ⟨hfit, hkids⟩
-      · split
-        · exact ⟨hfit, hkids⟩
-        · split
-          · exact ⟨hfit, hkids⟩
-          · split
-            · exact ⟨hfit, hkids⟩
-            · rename_i w hw
-              exact ⟨(writeDir_fit hb hw).1, kidsFit_kset hkids (fit_file _ _ _ _)⟩
+    generalize hr : dWrite eqn g fuel n off data img base s = r
+    unfold dWrite at hr
+    dsimp only at hr
+    (repeat' split at hr) <;> subst hr <;> fit_leaf hb hb64 hfit hkids
   | truncate d n img =>
     simp only [dstep]
-    unfold dTrunc
-    split
-    · exact ⟨hfit, hkids⟩
-    · exact ⟨hfit, hkids⟩
-    · split
-      · exact ⟨hfit, hkids⟩
-      · split
-        · exact ⟨hfit, hkids⟩
-        · rename_i w hw
-          split
-          · exact ⟨hfit, hkids⟩
-          · exact ⟨(writeDir_fit hb hw).1, kidsFit_kset hkids (fit_file _ _ _ _)⟩
+    generalize hr : dTrunc eqn g fuel n img base s = r
+    unfold dTrunc at hr
+    dsimp only at hr
+    (repeat' split at hr) <;> subst hr <;> fit_leaf hb hb64 hfit hkids
   | remove d n img =>
     simp only [dstep]
-    unfold dRemove
-    split
-    · exact ⟨hfit, hkids⟩
-    · exact ⟨hfit, hkids⟩
-    · split
-      · exact ⟨hfit, hkids⟩
-      · rename_i w hw
-        dsimp only
-        split
-        · exact ⟨(writeDir_fit hb hw).1, kidsFit_kerase hkids⟩
-        · exact ⟨hfit, hkids⟩
+    generalize hr : dRemove eqn g fuel n img base s = r
+    unfold dRemove at hr
+    dsimp only at hr
+    (repeat' split at hr) <;> subst hr <;> fit_leaf hb hb64 hfit hkids
   | rename d o n img =>
     simp only [dstep]
-    unfold dRename
-    split
-    · exact ⟨hfit, hkids⟩
-    · split
-      · exact ⟨hfit, hkids⟩
-      · split
-        · exact ⟨hfit, hkids⟩
-        · split
-          · exact ⟨hfit, hkids⟩
-          · rename_i w hw
-            exact ⟨(writeDir_fit hb hw).1, kidsFit_krename hkids⟩
-        · split
-          · exact ⟨hfit, hkids⟩
-          · rename_i w hw
-            dsimp only
-            split
-            · exact ⟨(writeDir_fit hb hw).1, kidsFit_krename (kidsFit_kerase hkids)⟩
-            · exact ⟨hfit, hkids⟩
+    generalize hr : dRename eqn g fuel o n img base s = r
+    unfold dRename at hr
+    dsimp only at hr
+    (repeat' split at hr) <;> subst hr <;> fit_leaf hb hb64 hfit hkids
 
 theorem dirSlots_mid (g : TGeom) (base : Nat) (pre post : List TNode) (t x : TNode) (h : x.name = t.name) :
     dirSlots g base (pre ++ x :: post) = dirSlots g base (pre ++ t :: post) := by
@@ -293,7 +275,8 @@ theorem dirSlots_mid (g : TGeom) (base : Nat) (pre post : List TNode) (t x : TNo
 theorem atDirT_fit (he : EqnOk eqn) {f : Nat → DirSt → DirSt × TRes} (hf : FitOk g f) (path : List Spec.Name) :
     ∀ (base : Nat) (s : DirSt), kidsWF eqn g s.kids → LevelFit g base s.chain s.kids → kidsFit g s.kids →
       LevelFit g base (atDirT eqn f path base s).1.chain (atDirT eqn f path base s).1.kids ∧
-      kidsFit g (atDirT eqn f path base s).1.kids := by
+      kidsFit g (atDirT eqn f path base s).1.kids ∧
+      ((atDirT eqn f path base s).1.chain = [] ↔ s.chain = []) := by
   induction path with
   | nil =>
     intro base s _ hfit hkids
@@ -313,22 +296,157 @@ theorem atDirT_fit (he : EqnOk eqn) {f : Nat → DirSt → DirSt × TRes} (hf : 
         rw [hsplit] at h1
         have := kidsWF_mid h1
         rwa [wf_dir] at this
-      have IH := ih 2 ⟨s.m, s.d, c, ks⟩ hwfks hchild.2.1 hchild.2.2
+      have IH : LevelFit g 2 (atDirT eqn f path 2 ⟨s.m, s.d, c, ks⟩).1.chain (atDirT eqn f path 2 ⟨s.m, s.d, c, ks⟩).1.kids ∧
+          kidsFit g (atDirT eqn f path 2 ⟨s.m, s.d, c, ks⟩).1.kids ∧
+          ((atDirT eqn f path 2 ⟨s.m, s.d, c, ks⟩).1.chain = [] ↔ c = []) :=
+        ih 2 ⟨s.m, s.d, c, ks⟩ hwfks hchild.2.1 hchild.2.2
       generalize atDirT eqn f path 2 ⟨s.m, s.d, c, ks⟩ = r at IH ⊢
       by_cases hok : r.2 = .ok
       · simp only [hok, if_true]
         have hx : (TNode.dir nm r.1.chain r.1.kids).Fit g := by
           rw [fit_dir]
-          refine ⟨?_, IH.1, IH.2⟩
-          intro e
-          -- a chained directory stays chained: its new chain has the clusters it needs or is the old one
-          have := IH.1.1 e
-          sorry
-        sorry
+          exact ⟨fun e => hchild.1 (IH.2.2.1 e), IH.1, IH.2.1⟩
+        rw [hsplit, kset_split _ hfn hpre hpost]
+        refine ⟨?_, ?_, trivial⟩
+        · have hd := dirSlots_mid g base pre post (.dir nm c ks) (.dir nm r.1.chain r.1.kids) rfl
+          rw [hsplit] at hfit
+          unfold LevelFit dirNeed at hfit ⊢
+          rw [hd]
+          exact hfit
+        · rw [kidsFit_iff]
+          intro u hu
+          rcases List.mem_append.1 hu with hu | hu
+          · exact hall u (by rw [hsplit]; exact List.mem_append_left _ hu)
+          · rcases List.mem_cons.1 hu with rfl | hu
+            · exact hx
+            · exact hall u (by rw [hsplit]; exact List.mem_append_right _ (List.mem_cons_of_mem _ hu))
       · simp only [hok, if_false]
-        exact ⟨hfit, hkids⟩
-    · exact ⟨hfit, hkids⟩
-    · exact ⟨hfit, hkids⟩
+        exact ⟨hfit, hkids, trivial⟩
+    · exact ⟨hfit, hkids, Iff.rfl⟩
+    · exact ⟨hfit, hkids, Iff.rfl⟩
 
 end fit
+
+/-! ### one call on the volume, and histories -/
+
+section fitmain
+variable {eqn : Spec.Name → Spec.Name → Bool} {g : TGeom} {fuel : Nat}
+
+/-- every call, accepted or refused, leaves every directory with exactly the clusters its
+    entries need (the fixed root: with a slot for every entry) -/
+theorem tstep_fit (he : EqnOk eqn) (hb64 : 64 ≤ g.f.io.bpc) (s : DirSt) (op : TOp)
+    (h : TInv eqn g s) (hfit : TFit g s) : TFit g (tstep eqn g fuel s op).1 := by
+  have := atDirT_fit he (dstep_fit (eqn := eqn) (fuel := fuel) hb64 op) op.dir g.rootBase s h.wf hfit.root hfit.kids
+  exact ⟨this.1, this.2.1⟩
+
+theorem trun_fit (he : EqnOk eqn) (hg : TGeomOk g) (hfuel : g.f.lim - 2 ≤ fuel) (hb64 : 64 ≤ g.f.io.bpc)
+    (ops : List TOp) (s : DirSt) (h : TInv eqn g s) (hfit : TFit g s) :
+    TFit g (trun eqn g fuel s ops) := by
+  induction ops generalizing s with
+  | nil => exact hfit
+  | cons op rest ih =>
+    simp only [trun, List.foldl_cons]
+    exact ih _ (tstep_inv he hg hfuel s op h) (tstep_fit he hb64 s op h hfit)
+
+end fitmain
+
+/-! ### a directory that fits is rewritten in place: the roll-back branches of Write are dead -/
+
+/-- rewriting a directory that fits its storage with a child list of the same slot count touches
+    neither the table nor the chain and cannot fail -/
+theorem writeDir_same {g : TGeom} {fuel : Nat} {m : CMap} {d : Dev} {chain : List Nat} {base : Nat}
+    {ks ks' : List TNode} {img : Bytes} (hfit : LevelFit g base chain ks)
+    (hs : dirSlots g base ks' = dirSlots g base ks) :
+    ∃ d', writeDir g fuel m d chain base ks' img = .ok ⟨m, d', chain⟩ := by
+  cases chain with
+  | nil =>
+    simp only [writeDir]
+    rw [if_pos (by rw [hs]; exact hfit.1 rfl)]
+    exact ⟨_, rfl⟩
+  | cons c cs =>
+    have hn : dirNeed g base ks' = (c :: cs).length := by
+      have := hfit.2 (by simp)
+      unfold dirNeed at this ⊢
+      rw [hs]; exact this.symm
+    simp only [writeDir]
+    rw [if_neg (by rw [hn]; simp), if_pos hn]
+    exact ⟨_, rfl⟩
+
+section recorded
+variable {eqn : Spec.Name → Spec.Name → Bool} {g : TGeom} {fuel : Nat}
+
+theorem dirSlots_kset_same (he : EqnOk eqn) {ks : List TNode} {n : Spec.Name} {t x : TNode} (base : Nat)
+    (hd : ks.Pairwise fun a b => eqn a.name b.name = false) (hf : kfind eqn ks n = some t)
+    (hx : x.name = t.name) : dirSlots g base (kset eqn ks n x) = dirSlots g base ks := by
+  obtain ⟨pre, post, hsplit, hfn, hpre, hpost⟩ := kfind_split he hd hf
+  rw [hsplit, kset_split _ hfn hpre hpost]
+  exact dirSlots_mid g base pre post t x hx
+
+/-- **a Write that got its clusters is always recorded**: in a directory that fits its storage,
+    once `allocateSpace` has handed out the clusters and the data has been written, the rewrite of
+    the parent directory (same entries, new size) cannot fail — the model's roll-back of that
+    case, which the code does not have, is never taken -/
+theorem dWrite_recorded (he : EqnOk eqn) {base : Nat} {s : DirSt} {n fn : Spec.Name} {fc : List Nat}
+    {size off : Nat} {data img : Bytes} {l' : List Nat} {ws : List Wr}
+    (hwf : kidsWF eqn g s.kids) (hfit : LevelFit g base s.chain s.kids)
+    (hf : kfind eqn s.kids n = some (.file fn fc size)) (hd : data.length ≠ 0)
+    (hres : (falloc g.f fuel s.m (Nat.max size (off + data.length)) (fc.headD 0)).res = some l')
+    (hws : writeH true g.f.io l' size off data = some ws) :
+    (dWrite eqn g fuel n off data img base s).2 = .ok := by
+  obtain ⟨d', hw⟩ := writeDir_same (fuel := fuel)
+    (m := (falloc g.f fuel s.m (Nat.max size (off + data.length)) (fc.headD 0)).m)
+    (d := applyWrs s.d ws) (img := img) hfit
+    (dirSlots_kset_same (g := g) (x := .file fn l' (Nat.max size (off + data.length))) he base
+      (kidsWF_pairwise hwf) hf rfl)
+  unfold dWrite
+  simp only [hf, hd, if_false, hres, hws, hw]
+
+/-- the same for a truncating open: the rewrite of the parent directory cannot fail -/
+theorem dTrunc_rewrite_ok (he : EqnOk eqn) {base : Nat} {s : DirSt} {n fn : Spec.Name} {fc : List Nat}
+    {size : Nat} {img : Bytes}
+    (hwf : kidsWF eqn g s.kids) (hfit : LevelFit g base s.chain s.kids)
+    (hf : kfind eqn s.kids n = some (.file fn fc size)) :
+    ∃ d', writeDir g fuel s.m s.d s.chain base (kset eqn s.kids n (.file fn (fc.take 1) 0)) img
+      = .ok ⟨s.m, d', s.chain⟩ :=
+  writeDir_same hfit (dirSlots_kset_same (g := g) (x := .file fn (fc.take 1) 0) he base
+    (kidsWF_pairwise hwf) hf rfl)
+
+end recorded
+
+/-! ### non-vacuity: a volume whose directory "B" (two clusters) holds the file "A" -/
+
+/-- 64-byte clusters, two slots per name: "." + ".." + one entry fill exactly two clusters -/
+def exTGeom2 : TGeom := ⟨⟨.f12, 10, 10, ⟨0, 256, 64⟩⟩, fun _ => 2, 8, 1, 0⟩
+
+theorem exTGeom2_ok : TGeomOk exTGeom2 := ⟨by decide, ex_limOk, by decide, by decide⟩
+
+def exTree2 : DirSt := ⟨exTable, fun _ => 0, [], [.dir [66] [3, 4] [.file [65] [2] 3]]⟩
+
+theorem exTree2_inv : TInv exEqn exTGeom2 exTree2 where
+  table := by
+    have : chainOwner exTree2.chain ++ kidsOwners exTree2.kids = [[3, 4], [2]] := by
+      simp [exTree2, chainOwner, kidsOwners_cons, kidsOwners_nil, owners_file, owners_dir]
+    rw [this]
+    exact ex_inv'
+  wf := by
+    simp only [exTree2, kidsWF_cons, wf_dir, wf_file, kidsWF_nil, List.not_mem_nil, false_imp_iff,
+      implies_true, and_true]
+    decide
+
+theorem exTree2_fit : TFit exTGeom2 exTree2 where
+  root := ⟨fun _ => by decide, fun h => absurd rfl h⟩
+  kids := by
+    simp only [exTree2, kidsFit, TNode.Fit, and_true]
+    exact ⟨by decide, ⟨fun h => (by cases h), fun _ => (by decide)⟩⟩
+
+example (ops : List TOp) : TFit exTGeom2 (trun exEqn exTGeom2 8 exTree2 ops) :=
+  trun_fit exEqn_ok exTGeom2_ok (by decide) (by decide) ops exTree2 exTree2_inv exTree2_fit
+
+/-- a second file in "B" (it gets cluster 5) needs a third directory cluster: the chain grows to 3 → 4 → 6 … -/
+example : (tstep exEqn exTGeom2 8 exTree2 (.create [[66]] [67] [])).1.kids.map TNode.chain = [[3, 4, 6]] := by
+  decide
+/-- … and removing "A" shrinks it to one cluster -/
+example : (tstep exEqn exTGeom2 8 exTree2 (.remove [[66]] [65] [])).1.kids.map TNode.chain = [[3]] := by
+  decide
+
 end Diskfs.Fat
